@@ -14,12 +14,15 @@ Proof.
   cbn [encode_str]. unfold printable in H1. rewrite H1. rewrite IH by assumption. reflexivity.
 Qed.
 
+Lemma lrev_rev : forall (A : Type) (l : list A), lrev l = rev l.
+Proof. intros. unfold lrev. rewrite rev_append_rev. apply app_nil_r. Qed.
+
 (* ParseString undoes Escape, for every byte string *)
 Lemma parse_str_escape : forall k rest acc,
   parse_str (escape_str k ++ 34 :: rest) acc = POk (rev acc ++ k) rest.
 Proof.
   induction k as [|c r IH]; intros rest acc.
-  - cbn [escape_str app parse_str N.eqb Pos.eqb]. rewrite app_nil_r. reflexivity.
+  - cbn [escape_str app parse_str N.eqb Pos.eqb]. rewrite lrev_rev, app_nil_r. reflexivity.
   - assert (Hstep : forall x, rev (x :: acc) ++ r = rev acc ++ x :: r).
     { intro x. cbn [rev]. rewrite <- app_assoc. reflexivity. }
     cbn [escape_str].
